@@ -11,7 +11,8 @@
 (*     deku's prefix parser (it hands the unread rest back), so the number  *)
 (*     of bytes it consumed is judged;                                      *)
 (*   - decoding the same bytes twice gives equal results (same outcome and  *)
-(*     same rendered result, compared through the hashes h1 / h2);          *)
+(*     same rendered result, compared through the hashes h1 / h2, and the   *)
+(*     two messages equal as values - eq / fb_eq, the derived PartialEq);   *)
 (*   - rendering an accepted message as text returns.                       *)
 (*   - the result is a function of the bytes alone (events "ctx").            *)
 (* Which inputs are accepted is deliberately not judged.                    *)
@@ -22,7 +23,7 @@ Outcomes == {"ok", "err"}
 TryFromOk(ev) ==
   /\ ev.out \in Outcomes
   /\ ev.out2 = ev.out
-  /\ ev.h1 = ev.h2
+  /\ ev.h1 = ev.h2 /\ ev.eq
   /\ ev.out = "ok" => /\ ev.len >= 1
                       /\ ev.len = LenFor(DFOfByte(ev.b0))
                       /\ ev.disp = "ok"
@@ -31,7 +32,7 @@ TryFromOk(ev) ==
 FromBytesOk(ev) ==
   /\ ev.fb_out \in Outcomes
   /\ ev.fb_out2 = ev.fb_out
-  /\ ev.fb_h1 = ev.fb_h2
+  /\ ev.fb_h1 = ev.fb_h2 /\ ev.fb_eq
   /\ ev.fb_out = "ok" => /\ ev.len >= 1
                          /\ ev.fb_used = LenFor(DFOfByte(ev.b0))
                          /\ ev.fb_used <= ev.len
@@ -55,7 +56,7 @@ Ok(ev) == IF ev.e = "ctx" THEN CtxOk(ev) ELSE TryFromOk(ev) /\ FromBytesOk(ev)
 Clause(ev) ==
   CASE ev.e = "ctx" -> (IF ev.out \in Outcomes /\ ev.fb_out \in Outcomes THEN "context" ELSE "returns")
     [] ev.out \notin Outcomes \/ ev.fb_out \notin Outcomes -> "returns"
-    [] ev.out2 # ev.out \/ ev.h1 # ev.h2 \/ ev.fb_out2 # ev.fb_out \/ ev.fb_h1 # ev.fb_h2 -> "deterministic"
+    [] ev.out2 # ev.out \/ ev.h1 # ev.h2 \/ ev.fb_out2 # ev.fb_out \/ ev.fb_h1 # ev.fb_h2 \/ ~ev.eq \/ ~ev.fb_eq -> "deterministic"
     [] ev.out = "ok" /\ (ev.len < 1 \/ ev.len # LenFor(DFOfByte(ev.b0))) -> "length"
     [] ev.fb_out = "ok" /\ (ev.len < 1 \/ ev.fb_used # LenFor(DFOfByte(ev.b0)) \/ ev.fb_used > ev.len) -> "length"
     [] OTHER -> "text"
